@@ -1,5 +1,6 @@
 import Cvise.Proofs.PassesTerm
 import Cvise.Proofs.PassesBalTerm
+import Cvise.Proofs.PassesTernTerm
 import Cvise.Props.C06
 import Cvise.Gen.Const
 /-!
@@ -35,6 +36,13 @@ theorem balanced_bound (arg : String) (cfg : BalCfg) (hc : balCfg arg = some cfg
 theorem balanced_recipes_shrink : Gen.balancedCfg.all (fun x => shapeShrinks x.2.2.2.2) = true := P.balanced_recipes_shrink
 
 example : (balCfg "parens").isSome = true := by decide +kernel
+
+/-- ternary (arguments b, c): at most `2·|s| + 2` candidates for every accept/reject history (same measure; an accepted
+    candidate keeps one operand of `x ? b : c` between its two border characters and is strictly shorter) -/
+theorem ternary_bound (arg : String) (harg : arg = "b" ∨ arg = "c") (hist : List Bool) (s : Text) (st : TernSt)
+    (hnew : (ternary arg).new s = some st) :
+    (runHistory (ternary arg) hist s (some st) []).1.length ≤ 2 * s.length + 2 :=
+  P.ternary_bound arg harg hist s st hnew
 
 /-- peep: `advance` walks `(pos, regex)` lexicographically and ends at `pos ≥ |s|` -/
 theorem peep_advance_progress (arg : String) (s : Text) (st st' : PeepSt) (h : peepAdvance arg s st = some st') :
